@@ -66,7 +66,7 @@ def done_scenario(rng, family, idx, mode):
     return {"id": "%s-%s-d%d" % (family, mode[0], idx), "mode": mode, "seed": rng.randrange(1 << 30), "onnew": True, "onerr": True,
             "cbcap": 8, "def": {"x": 1, "y": 2}, "skip": False, "delay": False, "suppress": False, "oracle": True, "maxsteps": 600,
             "pcancel": 0.0, "cancelok": [], "init": [{"x": 11, "y": 0, "u": False}],
-            "procs": {"r1": ops, "c1": [{"op": "view"}]}}
+            "procs": {"r1": ops, "c1": [{"op": "view"}]}, "starve": ["cb"] if rng.random() < 0.7 else []}
 
 
 def gen_scenario(rng, family, idx, mode):
